@@ -34,8 +34,9 @@ def norm_ret(ret, real):
     return sorted(os.path.normpath(os.path.join(real, x)).replace(real, "<out>") for x in (ret or []))
 
 
-def matrix_case(runner, r, oc, nconf, big=False):
-    model = genlib.rand_model(r, ("sm", "sm", "proto", "uml", "uml"), big)
+def matrix_case(runner, r, oc, nconf, big=False, support_copy=False):
+    model = genlib.rand_model(r, ("sm", "sm", "proto", "uml", "uml"), big) if not support_copy else (
+        genlib.rand_sm_model(r, "cpp", big) if r.random() < 0.6 else genlib.rand_proto_model(r, big))
     with scratch() as base:
         # a directory with user code, then a model change that loses some of it (so LostCode is involved)
         seed_dir = os.path.join(base, "seed", "out")
@@ -43,6 +44,22 @@ def matrix_case(runner, r, oc, nconf, big=False):
         for rel, data in sorted(e2e.snapshot(seed_dir).items()):
             dups = genlib.duplicate_tags(data.decode("utf-8", "surrogateescape"))
             genlib.edit_file(r, os.path.join(seed_dir, rel), fraction=0.7, skip=dups)
+        # kojen's default: the support sources (allplatforms/...) are copied next to the output.  A stale copy from an earlier
+        # release lies there already; its age - like everything else about the pre-existing tree but the user code - must not matter
+        copy_other = model["kind"] in ("sm", "proto") and (support_copy or r.random() < 0.8)
+        stale = []
+        if copy_other:
+            with scratch() as probe:
+                runner.generate(dict(model, copy_other=True), os.path.join(probe, "out"))
+                support = sorted(set(e2e.snapshot(os.path.join(probe, "out"))) - set(e2e.snapshot(seed_dir)))
+            for rel in r.sample(support, min(len(support), r.randint(1, 3))):
+                p_ = os.path.join(seed_dir, rel)
+                os.makedirs(os.path.dirname(p_), exist_ok=True)
+                with open(p_, "w") as f:
+                    f.write("// support file of an earlier release\n")
+                stale.append(rel)
+            if stale:
+                oc.stat("cases_with_stale_support_files")
         model2 = genlib.mutate_model(r, model)[0] if r.random() < 0.6 else model
         if model["kind"] == "sm" and r.random() < 0.7:
             # a change that certainly orphans user code: every state / action / guard renamed (the LostCode files then
@@ -70,7 +87,14 @@ def matrix_case(runner, r, oc, nconf, big=False):
                 os.makedirs(os.path.join(work, "x"), exist_ok=True)
             else:
                 outdir, cwd = "out//", work
-            cfg = dict(model=model2, outdir=outdir, cwd=cwd, faketime=r.choice([None, 0, 86400 * 365.25 * 30 + 7, 2 ** 31 - 5]),
+            age = [None, "old", "future"][(i + 1) % 3] if stale else r.choice([None, "old", "future"])
+            if age:
+                stamp = 978307200 if age == "old" else time.time() + 3600
+                for root, _, fs in os.walk(work):
+                    for f_ in fs:
+                        os.utime(os.path.join(root, f_), (stamp, stamp))
+                oc.stat("conf_tree_mtime_" + age)
+            cfg = dict(model=dict(model2, copy_other=copy_other), outdir=outdir, cwd=cwd, faketime=r.choice([None, 0, 86400 * 365.25 * 30 + 7, 2 ** 31 - 5]),
                        walkseed=r.choice([None, 1, 2, 3]))
             hs = r.choice([0, 1, 2, 3, 4242, "random"])
             tz = r.choice(["UTC", "Asia/Tokyo", "America/New_York"])
@@ -122,7 +146,7 @@ def search():
     runner = genlib.Runner()
     oc = Outcome(PROP)
     for i in range(25):
-        matrix_case(runner, r, oc, 6)
+        matrix_case(runner, r, oc, 6, support_copy=i % 2 == 1)
         if oc.violations:
             return oc.violations[0]
     return None
@@ -134,14 +158,15 @@ def run(tier):
     proof = proof_status(PROP, thorough)
     oc = Outcome(PROP)
     oc.rule = ("matrix: a directory with user code is regenerated (60% with a mutated model, so LostCode occurs) in fresh interpreters under "
-               "PYTHONHASHSEED in {0,1,2,3,4242,random} x TZ x fake clock x shuffled os.walk listings x 6 spellings of the output directory/cwd; "
+               "PYTHONHASHSEED in {0,1,2,3,4242,random} x TZ x fake clock x shuffled os.walk listings x 6 spellings of the output directory/cwd x age of the pre-existing tree (2001 / as copied / one hour ahead); "
+               "C++ and protocol cases mostly with kojen's default copy of the support sources on, stale support files of an earlier release planted in the pre-existing tree; "
                "oracle: all trees byte-identical, same set of reported files, nothing outside the output directory; "
                "path: Basic/Path functions vs os.path on generated paths; non-trivial = every matrix case (>= 4 configurations compared)")
     oc.assumptions = TRUSTED
     r = rng(PROP)
     runner = genlib.Runner()
     for i in range(40 if thorough else 7):
-        matrix_case(runner, r, oc, 12 if thorough else 6, big=thorough)
+        matrix_case(runner, r, oc, 12 if thorough else 6, big=thorough, support_copy=i % 4 == 1)
         if oc.violations:
             break
     reqs, pend = [], []
